@@ -137,7 +137,7 @@ def extract_family(fam, cfg):
                     if it.get("inner_fn"):
                         info = extract.find_fn(src, it["inner_fn"], info["body_start"], info["body_end"])
                     abody, is_block, span = extract.find_arm(src, it["arm"], info["body_start"], info["body_end"])
-                    text = it["sig"] + " {\n" + abody + ("\n    Ok(())" if it.get("epilogue_ok") else "") + "\n}"
+                    text = it["sig"] + " {\n" + abody + ("\n    Ok(())" if it.get("epilogue_ok") else "") + it.get("epilogue", "") + "\n}"
                     rep["source"] = f"{it['file']}:{extract.line_of(src, span[0])}-{extract.line_of(src, span[1])} (arm `{it['arm']}`)"
                 elif kind == "closure_in_arm":
                     if it.get("impl"):
